@@ -647,6 +647,12 @@ class _Unroller(ast.NodeTransformer):
         self.count = 0
 
     def _elements(self, it):
+        if isinstance(it, ast.Call) and isinstance(it.func, ast.Name) and it.func.id == "enumerate" and len(it.args) == 1 and not it.keywords:
+            # enumerate over a constant table: rows (index, element)
+            inner = self._elements(it.args[0])
+            if inner is None:
+                return None
+            return [ast.Tuple(elts=[ast.Constant(value=k), e], ctx=ast.Load()) for k, e in enumerate(inner)]
         if isinstance(it, ast.Name) and it.id in getattr(self, "local_tables", {}):
             it = self.local_tables[it.id]
         if isinstance(it, ast.Name) and it.id in self.tables:
